@@ -36,12 +36,23 @@ def main():
     else:
         pid, tier = sys.argv[1], sys.argv[2]
     mod, arg = REG[pid]
+    # one scratch directory per run: rendered projects, compiler output and solver files of this process and of its
+    # worker processes (which do not run exit handlers) all go below it, and it is removed when the check ends
+    import os
+    import shutil
+    import tempfile
+
+    run_tmp = tempfile.mkdtemp(prefix="naunet-verif-run-", dir=os.environ.get("TMPDIR") or "/tmp")
+    os.environ["TMPDIR"] = run_tmp
+    tempfile.tempdir = run_tmp
     try:
         m = importlib.import_module(mod)
         return (m.run if hasattr(m, "run") else m.main)(arg, tier)
     except Exception:
         traceback.print_exc()
         return EXIT_HARNESS
+    finally:
+        shutil.rmtree(run_tmp, ignore_errors=True)
 
 
 if __name__ == "__main__":
